@@ -54,7 +54,15 @@ func NewGsfaReader(indexRootDir string) (*GsfaReader, error) {
 		index.ll = ll
 	}
 	{
-		man, err := manifest.NewManifest(filepath.Join(indexRootDir, "manifest"), indexmeta.Meta{})
+		// NewManifest creates (and initialises) the file if it is missing or empty; a reader must
+		// not silently turn a missing / truncated-to-zero manifest into a fresh one.
+		manifestPath := filepath.Join(indexRootDir, "manifest")
+		if info, err := os.Stat(manifestPath); err != nil {
+			return nil, fmt.Errorf("error while opening manifest: %w", err)
+		} else if info.Size() == 0 {
+			return nil, fmt.Errorf("manifest file is empty: %s", manifestPath)
+		}
+		man, err := manifest.NewManifest(manifestPath, indexmeta.Meta{})
 		if err != nil {
 			return nil, err
 		}
